@@ -5,7 +5,12 @@
 
 namespace scen_shared {
 
-enum { CK_PROMISE_KEPT, CK_PROMISE_RESOLVED_INSIDE, CK_FROM_FUTURE_PENDING, CK_FROM_FUTURE_READY, CK_DEFAULT_GET_PROMISE, CK_COUNT };
+enum { CK_PROMISE_KEPT, CK_PROMISE_RESOLVED_INSIDE, CK_FROM_FUTURE_PENDING, CK_FROM_FUTURE_READY, CK_DEFAULT_GET_PROMISE, CK_COUNT,
+       // chosen by a trailing program byte (older replay files keep their meaning)
+       CK_FACTORY_VALUE = CK_COUNT,   // shared_future<T>::set_value(v)
+       CK_FACTORY_EXCEPTION,          // shared_future<T>::set_exception(e)
+       CK_SHIFT_PENDING,              // default-constructed, init_if_needed(), sf << function returning a pending future
+       CK_ALL };
 enum { WA_WAIT, WA_COAWAIT, WA_DROP_PENDING, WA_POLL, WA_COPY_THEN_WAIT, WA_COUNT };
 enum { RA_VALUE, RA_EXC, RA_DROP };
 struct Worker { uint8_t action, yields; };
@@ -17,10 +22,12 @@ inline Prog decode(hz::Reader &r) {
     for (unsigned i = 0; i < n; i++) { Worker w; w.action = (uint8_t)r.mod(WA_COUNT); w.yields = (uint8_t)r.mod(3); p.w.push_back(w); }
     p.main_drop = (uint8_t)r.mod(2);
     p.early_copy = (uint8_t)r.mod(2);        // default-constructed kind: init_if_needed(), copy the handle, THEN get_promise()
+    unsigned e = r.mod(6); if (e >= 3) p.ck = (uint8_t)(CK_FACTORY_VALUE + (e - 3));
     return p;
 }
 inline std::string describe(const Prog &p) {
-    static const char *ck[] = {"from promise-function (promise kept)", "from promise-function (resolved inside)", "from future-returning function (pending)", "from future-returning function (ready)", "default-constructed + get_promise()"};
+    static const char *ck[] = {"from promise-function (promise kept)", "from promise-function (resolved inside)", "from future-returning function (pending)", "from future-returning function (ready)", "default-constructed + get_promise()",
+                               "set_value() factory", "set_exception() factory", "default-constructed, init_if_needed(), << function returning a pending future"};
     static const char *wa[] = {"wait()", "co_await own copy", "drop handle while pending", "poll ready() then value()", "copy, drop original, wait()"};
     static const char *ra[] = {"value", "exception", "drop"};
     hz::Desc d; d << "shared_future<" << (p.vt ? "Counted" : "int") << "> " << ck[p.ck] << "; resolver thread: yield*" << (unsigned)p.res_yields << ", " << ra[p.ra] << "; workers:";
@@ -73,9 +80,10 @@ struct Ctx {
 template<int VT>
 void run_t(const Prog &p) {
     using C = Ctx<VT>; using T = typename C::T; using SF = typename C::SF;
-    bool pending_kind = p.ck == CK_PROMISE_KEPT || p.ck == CK_FROM_FUTURE_PENDING || p.ck == CK_DEFAULT_GET_PROMISE;
+    bool pending_kind = p.ck == CK_PROMISE_KEPT || p.ck == CK_FROM_FUTURE_PENDING || p.ck == CK_DEFAULT_GET_PROMISE || p.ck == CK_SHIFT_PENDING;
     int expect = p.ra == RA_VALUE ? 42 : p.ra == RA_EXC ? 1005 : -1;
-    if (p.ck == CK_PROMISE_RESOLVED_INSIDE || p.ck == CK_FROM_FUTURE_READY) expect = 42;
+    if (p.ck == CK_PROMISE_RESOLVED_INSIDE || p.ck == CK_FROM_FUTURE_READY || p.ck == CK_FACTORY_VALUE) expect = 42;
+    if (p.ck == CK_FACTORY_EXCEPTION) expect = 1007;
     bool all_dropped_while_pending = false;
     {
         C c; c.code.assign(p.w.size(), -100); c.resumes.assign(p.w.size(), 0);
@@ -95,6 +103,12 @@ void run_t(const Prog &p) {
             case CK_PROMISE_RESOLVED_INSIDE: sf.emplace([&](cocls::promise<T> pr) { pr(ST<VT>::mk(42)); }); break;
             case CK_FROM_FUTURE_PENDING: sf.emplace([&]() -> cocls::future<T> { return cocls::future<T>([&](cocls::promise<T> pr) { c.keep(std::move(pr)); }); }); break;
             case CK_FROM_FUTURE_READY: sf.emplace([&]() -> cocls::future<T> { return cocls::future<T>::set_value(ST<VT>::mk(42)); }); break;
+            case CK_FACTORY_VALUE: sf.emplace(SF::set_value(ST<VT>::mk(42))); break;
+            case CK_FACTORY_EXCEPTION: sf.emplace(SF::set_exception(std::make_exception_ptr(val::TestExc(7)))); break;
+            case CK_SHIFT_PENDING:
+                sf.emplace(); sf->init_if_needed();
+                *sf << [&]() -> cocls::future<T> { return cocls::future<T>([&](cocls::promise<T> pr) { c.keep(std::move(pr)); }); };
+                break;
             default:
                 sf.emplace();
                 if (p.early_copy) { sf->init_if_needed(); early.emplace(*sf); }      // copies of an initialised, not yet promised handle share its state
@@ -133,7 +147,7 @@ void run_t(const Prog &p) {
 }
 
 inline void run(hz::Reader &r) { Prog p = decode(r); if (p.vt) run_t<1>(p); else run_t<0>(p); }
-static const char *const class_names[] = {"promise-kept", "resolved-inside", "from-pending-future", "from-ready-future", "default+get_promise"};
+static const char *const class_names[] = {"promise-kept", "resolved-inside", "from-pending-future", "from-ready-future", "default+get_promise", "set_value-factory", "set_exception-factory", "operator<<-pending"};
 static const char *const counter_names[] = {"cases_all_handles_dropped_while_pending"};
 
 } // namespace scen_shared
